@@ -307,7 +307,10 @@ fn run_c14(input: &Input, ctx: &Ctx, tier: Tier) -> CaseOut {
     let mut tb = Tape::new(input.b.clone());
     let stream = linearise(&mut tb, &tree, seq, true);
     crate::lab::driver::install_probe_hook();
-    let violations = super::c14::check_all(&stream, &o);
+    let mut violations = super::c14::check_all(&stream, &o);
+    let own = own_steps_table(&tree);
+    let (sv, summary_skipped) = super::c14::check_terminal_summary(&stream, &|s| own.get(&s).copied().unwrap_or(1));
+    violations.extend(sv);
     let keys: Vec<_> = stream.iter().map(decode).collect();
     let retried = keys.iter().any(|k| k.retries.is_some_and(|r| r.0 > 0));
     let pathless = tree.feats.iter().any(|f| f.src.path.is_none());
@@ -332,6 +335,7 @@ fn run_c14(input: &Input, ctx: &Ctx, tier: Tier) -> CaseOut {
     if keys.iter().any(|k| matches!(k.what, What::ParserError(_))) {
         labels.push("parser_error");
     }
+    labels.push(if summary_skipped { "summary_totals_not_compared_known_shape" } else { "summary_totals_compared" });
     if nontrivial {
         labels.push("nontrivial");
     }
@@ -357,6 +361,8 @@ fn run_c01(input: &Input, ctx: &Ctx, tier: Tier) -> CaseOut {
     let a_rest: Vec<u32> = input.a.iter().skip(1).copied().collect();
     let mut tb = Tape::new(input.b.clone());
     let mut labels = vec![];
+    // parser errors the lab parser handed to the runner (real runs only)
+    let mut delivered_parser_errors: Option<usize> = None;
     let (stream, sample_v, excluded, hash_src, herr): (Vec<Ev>, serde_json::Value, u64, String, Option<String>) = if from_runner {
         labels.push("from_real_runner");
         let profile = lab::props::profile_for("C01", tier, ctx);
@@ -368,6 +374,7 @@ fn run_c01(input: &Input, ctx: &Ctx, tier: Tier) -> CaseOut {
             return CaseOut { labels, harness_error: herr, excluded: j.case.excluded, ..CaseOut::default() };
         }
         let desc = j.case.describe();
+        delivered_parser_errors = Some(lab::oracles::delivered(&j.case, &j.log).errors.len());
         (j.log.raw.clone(), json!({"runner_case": desc, "n_events": j.log.raw.len()}), j.case.excluded, desc.to_string(), None)
     } else {
         labels.push("from_stream_generator");
@@ -393,6 +400,15 @@ fn run_c01(input: &Input, ctx: &Ctx, tier: Tier) -> CaseOut {
     }
     crate::lab::driver::install_probe_hook();
     let x = &out.expected;
+    // "failed iff a parser error was *delivered*": the stream the writers judge must not have lost it
+    if let Some(d) = delivered_parser_errors {
+        if d > 0 && x.parser_errors == 0 && !x.failed(true) {
+            violations.push(crate::engine::Violation::new(
+                "C01/verdict/delivered-parser-error-lost".to_string(),
+                format!("the parser delivered {d} error(s) to the runner, but its event stream carries none and nothing else failed: every stats writer reports the run as passed ({x:?})"),
+            ));
+        }
+    }
     let nontrivial = x.nonfinal_failures > 0 || x.final_hook_failures + x.nonfinal_hook_failures > 0 || x.skipped_allowed + x.skipped_not_allowed > 0 || x.parser_errors > 0;
     if x.nonfinal_failures > 0 {
         labels.push("nonfinal_failure");
